@@ -17,7 +17,9 @@ Notation dt := (hc_dead_timeout c).
 Hypothesis ra_nonneg : 0 <= ra.
 Hypothesis rt_lt_dt : rt < dt.
 
-Definition AllInv (s : hstate) : Prop := forall sv, Inv c sv false s.
+Variable nodes0 : list server.          (* the rotation the client started with *)
+Notation m0 sv := (sv_mem nodes0 sv).
+Definition AllInv (s : hstate) : Prop := forall sv, Inv c sv (m0 sv) s.
 (* the outcomes the property allows *)
 Definition Res {A} (r : exc A) : Prop :=
   match r with Ok _ => True | Raise e => hc_ignore_exc c = false /\ (exn_isa e OSError = true \/ e = MemcacheError) end.
@@ -106,7 +108,7 @@ Proof.
   destruct (hc_ignore_exc c) eqn:E; cbn; auto.
 Qed.
 
-Lemma AllInv_step {A} (m : HM A) s : (forall sv, Inv c sv false s -> Inv c sv false (snd (m s))) -> AllInv s -> AllInv (snd (m s)).
+Lemma AllInv_step {A} (m : HM A) s : (forall sv, Inv c sv (m0 sv) s -> Inv c sv (m0 sv) (snd (m s))) -> AllInv s -> AllInv (snd (m s)).
 Proof. intros H Ha sv. apply H, Ha. Qed.
 
 Lemma run_cmd_res meth key d args s : AllInv s -> valid_key key -> Res (fst (run_cmd route c meth key d args s)).
@@ -114,23 +116,23 @@ Proof.
   intros Ha Hv. unfold run_cmd. unfold hbind at 1. pose proof (get_client_res key s Hv) as R1.
   destruct (get_client route c key s) as [[[osv k]|e] s1] eqn:Eg; cbn [fst] in *; [|exact R1].
   destruct osv as [sv'|]; [|cbn; exact I].
-  destruct (get_client_inv route c route_in sv' false key s (Ha sv')) as [I1 Hm]. rewrite Eg in I1, Hm. cbn [snd] in I1.
-  apply (safely_res sv' false); [exact I1|apply (Hm sv' k s1 eq_refl)].
+  destruct (get_client_inv route c route_in sv' (m0 sv') key s (Ha sv')) as [I1 Hm]. rewrite Eg in I1, Hm. cbn [snd] in I1.
+  apply (safely_res sv' (m0 sv')); [exact I1|apply (Hm sv' k s1 eq_refl)].
 Qed.
 
 (* one inner call, seen from any server sv *)
-Lemma safely_any sv sv' m a d s : Inv c sv false s -> sv_mem (h_nodes s) sv' = true ->
+Lemma safely_any sv sv' m a d s : Inv c sv (m0 sv) s -> sv_mem (h_nodes s) sv' = true ->
   let s1 := snd (safely_run c sv' (icall sv' m a) d s) in
-  Inv c sv false s1 /\ (list_eqb sv' sv = false -> sv_mem (h_nodes s1) sv = sv_mem (h_nodes s) sv).
+  Inv c sv (m0 sv) s1 /\ (list_eqb sv' sv = false -> sv_mem (h_nodes s1) sv = sv_mem (h_nodes s) sv).
 Proof.
   intros Hi Hm. cbn zeta. destruct (list_eqb sv' sv) eqn:E.
   - apply list_eqb_eq in E. subst sv'. split; [apply (safely_sv c ra_nonneg rt_lt_dt); assumption|intros X; discriminate].
   - pose proof (FR_safely c sv sv' (icall sv' m a) d E (FR_icall c sv sv' m a E) s) as F1.
-    split; [apply (Inv_frame c sv false s); assumption|]. intros _. destruct (F1 (proj1 Hi)) as [_ (_ & _ & V3 & _)]. exact V3.
+    split; [apply (Inv_frame c sv (m0 sv) s); assumption|]. intros _. destruct (F1 (proj1 Hi)) as [_ (_ & _ & V3 & _)]. exact V3.
 Qed.
-Lemma set_many_any sv sv' values args s : Inv c sv false s -> sv_mem (h_nodes s) sv' = true ->
+Lemma set_many_any sv sv' values args s : Inv c sv (m0 sv) s -> sv_mem (h_nodes s) sv' = true ->
   let s1 := snd (safely_run_set_many c sv' values args s) in
-  Inv c sv false s1 /\ (list_eqb sv' sv = false -> sv_mem (h_nodes s1) sv = sv_mem (h_nodes s) sv).
+  Inv c sv (m0 sv) s1 /\ (list_eqb sv' sv = false -> sv_mem (h_nodes s1) sv = sv_mem (h_nodes s) sv).
 Proof.
   intros Hi Hm. cbn zeta. rewrite (set_many_state c sv' values args (DList []) s (g_out s (proj1 Hi))).
   apply (safely_any sv sv' 1 (DDict values :: args) (DList []) s Hi Hm).
@@ -143,7 +145,7 @@ Proof.
   induction bs as [|[sv' ks] t IH]; intros acc s Ha Hn Hr; [cbn; exact I|]. cbn [run_get]. unfold hbind.
   cbn [map fst] in Hn. inversion Hn as [|? ? Hnot Hn']; subst.
   assert (Hm : sv_mem (h_nodes s) sv' = true) by (apply (Hr sv'); left; reflexivity).
-  pose proof (safely_res sv' false (if gets then 3 else 2) (DList ks :: args) (DDict []) s (Ha sv') Hm) as R1.
+  pose proof (safely_res sv' (m0 sv') (if gets then 3 else 2) (DList ks :: args) (DDict []) s (Ha sv') Hm) as R1.
   pose proof (fun sv => safely_any sv sv' (if gets then 3 else 2) (DList ks :: args) (DDict []) s (Ha sv) Hm) as St. cbn zeta in St.
   destruct (safely_run c sv' (icall sv' (if gets then 3 else 2) (DList ks :: args)) (DDict []) s) as [[res|e] s1]; cbn [fst snd] in *; [|exact R1].
   apply IH; [intros sv; apply (St sv)|exact Hn'|].
@@ -156,7 +158,7 @@ Proof.
   induction bs as [|[sv' vals] t IH]; intros failed s Ha Hn Hr; [cbn; exact I|]. cbn [run_set]. unfold hbind.
   cbn [map fst] in Hn. inversion Hn as [|? ? Hnot Hn']; subst.
   assert (Hm : sv_mem (h_nodes s) sv' = true) by (apply (Hr sv'); left; reflexivity).
-  pose proof (set_many_res sv' false vals args s (Ha sv') Hm) as R1.
+  pose proof (set_many_res sv' (m0 sv') vals args s (Ha sv') Hm) as R1.
   pose proof (fun sv => set_many_any sv sv' vals args s (Ha sv) Hm) as St. cbn zeta in St.
   destruct (safely_run_set_many c sv' vals args s) as [[res|e] s1]; cbn [fst snd] in *; [|exact R1].
   apply IH; [intros sv; apply (St sv)|exact Hn'|].
@@ -174,7 +176,7 @@ Qed.
 Lemma get_many_res gets keys args s : AllInv s -> Forall valid_key keys -> Res (fst (get_many route c gets keys args s)).
 Proof.
   intros Ha Hv. unfold get_many. unfold hbind at 1. pose proof (collect_get_res keys [] s Hv) as R1.
-  pose proof (fun sv => collect_get_inv route c route_in sv false keys [] s (Ha sv) (NoDup_nil _) (fun X => match X with end)) as Hc.
+  pose proof (fun sv => collect_get_inv route c route_in sv (m0 sv) keys [] s (Ha sv) (NoDup_nil _) (fun X => match X with end)) as Hc.
   destruct (collect_get route c keys [] s) as [[b|e] s1]; cbn [fst snd] in *; [|exact R1].
   unfold hbind.
   assert (R2 : Res (fst (run_get c gets args b [] s1))).
@@ -196,7 +198,7 @@ Qed.
 Lemma set_many_hop_res values args s : AllInv s -> Forall valid_value values -> Res (fst (set_many route c values args s)).
 Proof.
   intros Ha Hv. unfold set_many. unfold hbind at 1. pose proof (collect_set_res values [] [] s Hv) as R1.
-  pose proof (fun sv => collect_set_inv route c route_in sv false values [] [] s (Ha sv) (NoDup_nil _) (fun X => match X with end)) as Hc.
+  pose proof (fun sv => collect_set_inv route c route_in sv (m0 sv) values [] [] s (Ha sv) (NoDup_nil _) (fun X => match X with end)) as Hc.
   destruct (collect_set route c values [] [] s) as [[[b f0]|e] s1]; cbn [fst snd] in *; [|exact R1].
   unfold hbind.
   assert (R2 : Res (fst (run_set c args b f0 s1))).
@@ -207,7 +209,7 @@ Lemma delete_many_res args : forall keys s, AllInv s -> Forall valid_key keys ->
 Proof.
   unfold delete_many. induction keys as [|k t IH]; intros s Ha Hv; [cbn; exact I|]. unfold hbind.
   pose proof (run_cmd_res 4 k (DBool false) args s Ha (Forall_inv Hv)) as R1.
-  pose proof (fun sv => run_hop_inv route c route_in ra_nonneg rt_lt_dt sv false (HCmd 4 k (DBool false) args) s (Ha sv)) as St. cbn [run_hop] in St.
+  pose proof (fun sv => run_hop_inv route c route_in ra_nonneg rt_lt_dt sv (m0 sv) (HCmd 4 k (DBool false) args) s (Ha sv)) as St. cbn [run_hop] in St.
   destruct (run_cmd route c 4 k (DBool false) args s) as [[r|e] s1]; cbn [fst snd] in *; [|exact R1].
   apply IH; [exact St|apply (Forall_inv_tail Hv)].
 Qed.
@@ -234,12 +236,26 @@ Theorem escapes_hold : forall ops s, AllInv s -> Forall valid_op ops ->
 Proof.
   induction ops as [|o t IH]; intros s Ha Hv; [exists []; split; [reflexivity|constructor]|]. cbn [run_hops].
   pose proof (run_hop_res o s Ha (Forall_inv Hv)) as R1.
-  pose proof (fun sv => run_hop_inv route c route_in ra_nonneg rt_lt_dt sv false o s (Ha sv)) as St.
+  pose proof (fun sv => run_hop_inv route c route_in ra_nonneg rt_lt_dt sv (m0 sv) o s (Ha sv)) as St.
   destruct (run_hop route c o s) as [r s1]; cbn [fst snd] in *.
   destruct (IH s1 St (Forall_inv_tail Hv)) as (rs & E & Hrs).
   destruct (run_hops route c t s1) as [[rs'|e] s2]; cbn [fst] in E; [|discriminate]. inversion E; subst rs'.
   exists (r :: rs). split; [reflexivity|constructor; assumption].
 Qed.
-Lemma init_all servers t0 times outs : mono t0 times -> Forall okout outs -> AllInv (init_hstate servers t0 times outs).
-Proof. intros Hm Ho sv. apply init_inv; [exact Hm|exact Ho|intros X; discriminate]. Qed.
+(* every state of a history satisfies the invariant of every server *)
+Theorem all_inv_hold : forall ops s, AllInv s -> AllInv (snd (run_hops route c ops s)).
+Proof.
+  induction ops as [|o t IH]; intros s Ha; [exact Ha|]. cbn [run_hops].
+  pose proof (fun sv => run_hop_inv route c route_in ra_nonneg rt_lt_dt sv (m0 sv) o s (Ha sv)) as St.
+  destruct (run_hop route c o s) as [r s1]. cbn [snd] in St. specialize (IH s1 St).
+  destruct (run_hops route c t s1) as [[rs|e] s2]; exact IH.
+Qed.
+(* placement returns to the original: once no server is evicted any more, the rotation has exactly the servers it started with *)
+Theorem rotation_restored s : AllInv s -> h_dead s = [] -> forall sv, sv_mem (h_nodes s) sv = sv_mem nodes0 sv.
+Proof. intros Ha Hd sv. destruct (Ha sv) as (_ & _ & _ & _ & [M1 _]). apply M1. rewrite Hd. reflexivity. Qed.
 End Escapes.
+
+Lemma init_all c servers t0 times outs : mono t0 times -> Forall okout outs ->
+  AllInv c (h_nodes (init_hstate servers t0 times outs)) (init_hstate servers t0 times outs).
+Proof. intros Hm Ho sv. apply init_inv; [exact Hm|exact Ho|reflexivity]. Qed.
+
